@@ -659,6 +659,9 @@ func (device *AbacoUDPReceiver) samplePackets(maxSampleTime time.Duration) (allP
 
 // stop closes the UDP connection
 func (device *AbacoUDPReceiver) stop() error {
+	if device.conn == nil { // never started, or its reader already ended
+		return nil
+	}
 	err := device.conn.Close()
 	close(device.sendmore)
 	return err
@@ -827,10 +830,17 @@ func (as *AbacoSource) distributePackets(allpackets []*packets.Packet, now time.
 }
 
 // Sample determines key data facts by sampling some initial data.
-func (as *AbacoSource) Sample() error {
+func (as *AbacoSource) Sample() (err error) {
 	if len(as.producers) <= 0 {
 		return fmt.Errorf("no Abaco ring buffers or UDP receivers are active")
 	}
+	// A failed Sample means a failed Start, and then nothing runs the stop path: release the devices
+	// opened here (UDP sockets and their reader goroutines), or the next Start cannot bind the ports.
+	defer func() {
+		if err != nil {
+			as.closeDevices()
+		}
+	}()
 
 	// Launch device.samplePackets as goroutines on each device, in parallel, to save time.
 	type SampleResult struct {
@@ -854,11 +864,13 @@ func (as *AbacoSource) Sample() error {
 	// Now sort the packets received into the right AbacoGroups
 	as.nchan = 0
 	as.groups = make(map[GroupIndex]*AbacoGroup)
+	var sampleErr error
 	for range as.producers {
 		results := <-sampleResults
 		now := time.Now()
 		if results.err != nil {
-			return results.err
+			sampleErr = results.err // keep receiving: every sampling goroutine must finish first
+			continue
 		}
 		// Create new AbacoGroup for each GroupIndex seen
 		for _, p := range results.allpackets {
@@ -872,6 +884,13 @@ func (as *AbacoSource) Sample() error {
 			}
 		}
 		as.distributePackets(results.allpackets, now)
+	}
+
+	if sampleErr != nil {
+		return sampleErr
+	}
+	if as.nchan == 0 {
+		return fmt.Errorf("no Abaco data packets arrived within the sampling time (%v)", timeout)
 	}
 
 	// Verify that no channel # appears in 2 groups.
